@@ -45,6 +45,20 @@ CHECKS = {
              "contour / report-and-save queries on fits with user-fixed and limited parameters, for the iminuit and the scipy adapter. Each generated sequence is executed on a real three-parameter fit: after every query "
              "the parameter values (both the minimizer's and the model's copy), cost, symmetric uncertainties, did_fit and the fixed/limited sets must be unchanged up to the minimizer tolerance, and a repeated question must give the same answer.",
         note="Trusted: TLC, harness/adapters/minimizer.py (thresholds: 0.02 sigma, 1e-3 cost, 5 % uncertainties, 3 % repeated answers). Queries are only issued while no mutator was called since the last do_fit (the scope of the statement). The value classes of the model are abstract (optimum / displaced / conditional optimum)."),
+    "C01": dict(
+        category="model_checking", design_ref="DESIGN.md 5/C01, 4.3",
+        technique="TLA+ spec FitCache.tla generates the histories and the DECLARED configuration of every state (enabled sources, constraints, data set, whether the no-errors or the pointwise cost node may be in use: CostNodeSelection, checked by TLC); an independent numpy/scipy evaluator computes the documented -2 log L from that declaration and is compared with cost_function_value on real fits; plus a sweep over every identifier of the three STRING_TO_COST_FUNCTION tables",
+        text="TLC checks on the exported graph that the cost node is never out of date with respect to sources, constraints, parameters and data and that the no-errors / pointwise nodes are read only "
+             "when the declared configuration allows it. Every history (sources added in every order incl. a model-referenced source first, disabled/enabled, constraints, parameter points, data replacement, fits) "
+             "is executed on real fits of all four types and the reported cost is compared with r^T V^-1 r + log det V + constraint cost (resp. the Poisson / Gaussian / Gaussian-approximation / unbinned likelihoods) "
+             "computed from exactly the enabled declared sources. All 60+ cost identifiers are evaluated with several source mixes and constraints.",
+        note="Trusted: TLC, harness/evaluator.py (numpy solve/slogdet, scipy.stats), harness/fitlib.py catalogue. Tolerance 1e-6 relative. User-supplied cost callables are not covered. Known finding KF-C01-HIST-MODEL-REL is reported as such."),
+    "C10": dict(
+        category="model_checking", design_ref="DESIGN.md 5/C10",
+        technique="TLA+ spec FitCache.tla carries IdealNdf (exact integer formula) through every history of fix/release/constraint/source/data/fit operations; fit.ndf is compared with it exactly, goodness_of_fit and chi2_probability with the independent evaluator of the documented formulas",
+        text="The specification's state holds the number of data points, parameters, fixed parameters and constraint measurements (1 per simple, n per n-parameter matrix constraint); TLC enumerates all orders of fixing, releasing and "
+             "constraining; each history is executed on real fits and fit.ndf must equal the specification's integer; goodness of fit must equal cost minus saturated cost and chi2_probability the chi2 upper tail of the cost without its determinant term.",
+        note="Trusted: TLC, harness/evaluator.py, scipy.stats.chi2.sf. Multi-fits are covered under C11's check (MultiFit.tla NdfFormula)."),
 }
 NOT_APPLICABLE = {
     "C16": "Pure real-valued special-function identity (chi2 CDF and its inverse): no state or transitions, and TLC has neither reals nor exp; "
